@@ -492,3 +492,36 @@ Section PdrImpl.
   Definition pdr (fuel block_fuel : nat) : res (verdict * pst) :=
     if has_bads then pdr_loop fuel block_fuel init_state else Ok (VSuccess, init_state).
 End PdrImpl.
+
+(** ** an exhaustive-search oracle over an explicitly listed state space (for Examples: it shows
+    that the hypotheses of the theorems about the model are satisfiable; Proofs/PdrImplProofs.v
+    proves that it is truthful) *)
+Section EnumOracle.
+  Variable lit : Type.
+  Variable St : Type.
+  Variable lit_holds : lit -> St -> bool.
+  Variable bad0 : St -> bool.
+  Variable step0 trans : St -> St -> bool.
+  Variable bad : St -> bool.
+  Variable states : list St.
+
+  Definition ech (c : list lit) (s : St) : bool := forallb (fun l => lit_holds l s) c.
+
+  Definition enum_ok (q : query lit) (m : St) : bool :=
+    match q_from lit q with FromInit _ => true | FromClauses _ cs => negb (existsb (fun c => ech c m) cs) end &&
+    match q_neg lit q with None => true | Some c => negb (ech c m) end &&
+    match q_from lit q, q_bad lit q with
+    | FromInit _, true => bad0 m
+    | FromInit _, false => existsb (fun s' => step0 m s' && ech (q_fixed lit q ++ q_sel lit q) s') states
+    | FromClauses _ _, true => bad m
+    | FromClauses _ _, false => existsb (fun s' => trans m s' && ech (q_fixed lit q ++ q_sel lit q) s') states
+    end.
+
+  (** the first model in the list, or "unsat" with the full core *)
+  Definition enum_solve (n : nat) (q : query lit) : answer lit St :=
+    match find (enum_ok q) states with
+    | Some m => ASat lit St m
+    | None => AUnsat lit St (q_sel lit q)
+    end.
+End EnumOracle.
+
